@@ -32,7 +32,21 @@ def _install():
 
     core.consider_shortcircuit = _consider
 
-    # (3) solver accounting: count z3 queries and solver time (written at exit by chx_stats)
+    # (3) a method whose explicit __signature__ has NO parameters (pane gives a field-less dataclass the __init__ signature
+    #     "()", without self) makes CrossHair's class-condition scan raise IndexError when such a class, or a subclass of it, is
+    #     instantiated under the tracer; pane's `except Exception` around instance creation then turns that into a rejection.
+    from crosshair import fnutil
+    from inspect import Signature
+    _orig_sfat = fnutil.set_first_arg_type
+
+    def _set_first_arg_type(sig, first_arg_type):
+        if len(sig.parameters) == 0:
+            return sig
+        return _orig_sfat(sig, first_arg_type)
+
+    fnutil.set_first_arg_type = _set_first_arg_type
+
+    # (4) solver accounting: count z3 queries and solver time (written at exit by chx_stats)
     try:
         import z3
         import chx_stats
